@@ -260,6 +260,7 @@ package sonic
 //@   ensures [all] result1 == nil ==> int(result0) == old(b.ri - b.si)
 //@   ensures [saved] forall j :: 0 <= j && j < b.si ==> b.data[j] == old(b.data[j])
 //@   ensures [rest] forall j :: b.si <= j && j < b.wi ==> b.data[j] == old(b.data[j+int(result0)])
+//@   ensures [storage] ptr(b.data) == old(ptr(b.data)) && cap(b.data) == old(cap(b.data))
 //@   modifies fields(b), memcap(b.data)
 
 // Completion closures of the asynchronous transfers (C02, C19, C17): the bytes the transport
